@@ -32,6 +32,10 @@ toy_field!(C107, F107, "107", "2");
 toy_field!(C251, F251, "251", "6");
 toy_field!(C65521, F65521, "65521", "17");
 toy_field!(C65537, F65537, "65537", "3"); // Fermat prime: two-adicity 16
+// 64-bit primes with two-adicity 34, 40, 47 (Tonelli-Shanks loops of maximal depth; sampled, see field::sqrt_high_adicity)
+toy_field!(CT34, FT34, "9223373256625487873", "3");
+toy_field!(CT40, FT40, "9223423713901281281", "3");
+toy_field!(CT47, FT47, "9229142273877344257", "5");
 
 // ---- Fp2 over F7 with beta = -1 (7 = 3 mod 4), Fp2 over F13 with beta = 2 (general branch), Fp3 over F7 with beta = 2
 pub struct F7x2;
@@ -107,6 +111,27 @@ impl MontCurveConfig for Te13 {
     type TECurveConfig = Te13;
 }
 
+// -x^2 + y^2 = 1 + 7 x^2 y^2 over F_241 (an 8-bit modulus: no spare bit in the top byte): 232 = 8 * 29 points
+#[derive(Clone, Copy, PartialEq, Eq, Debug)]
+pub struct Te241;
+impl CurveConfig for Te241 {
+    type BaseField = mnt4a::Fq;
+    type ScalarField = F29;
+    const COFACTOR: &'static [u64] = &[8];
+    const COFACTOR_INV: F29 = MontFp!("11");
+}
+impl TECurveConfig for Te241 {
+    const COEFF_A: mnt4a::Fq = MontFp!("-1");
+    const COEFF_D: mnt4a::Fq = MontFp!("7");
+    const GENERATOR: te::Affine<Self> = te::Affine::new_unchecked(MontFp!("226"), MontFp!("22"));
+    type MontCurveConfig = Te241;
+}
+impl MontCurveConfig for Te241 {
+    const COEFF_A: mnt4a::Fq = MontFp!("119");
+    const COEFF_B: mnt4a::Fq = MontFp!("120");
+    type TECurveConfig = Te241;
+}
+
 // ---- multi-limb derived fields (the generator's unrolled code for N = 2..6; sampled, see field::multi_limb)
 macro_rules! wide_field {
     ($cfg:ident, $ty:ident, $n:literal, $p:literal, $g:literal) => {
@@ -117,13 +142,15 @@ macro_rules! wide_field {
         pub type $ty = ark_ff::Fp<MontBackend<$cfg, $n>, $n>;
     };
 }
-wide_field!(CW2sp, W2sp, 2, "42535295865117307932921825928971026423", "3");
-wide_field!(CW2ns, W2ns, 2, "340282366920938463463374607431768211297", "3");
+wide_field!(CW2sp, W2sp, 2, "42535295865117307932921825928971026423", "5");
+wide_field!(CW2ns, W2ns, 2, "340282366920938463463374607431768211297", "5");
 // exactly two spare bits, p close to 2^126: the tightest case of the generated sum_of_products batching bound
 wide_field!(CW2s2, W2s2, 2, "85070591730234615865843651857942052727", "5");
+// two-adicity 65 (> 64: the low limb of p - 1 is zero): p = 9 * 2^65 + 1
+wide_field!(CW2t65, W2t65, 2, "332041393326771929089", "19");
 wide_field!(CW2m127, W2m127, 2, "170141183460469231731687303715884105727", "3");
-wide_field!(CW3ns, W3ns, 3, "6277101735386680763835789423207666416102355444464034512659", "5");
-wide_field!(CW4fr, W4fr, 4, "52435875175126190479447740508185965837690552500527637822603658699938581184513", "7");
+wide_field!(CW3ns, W3ns, 3, "6277101735386680763835789423207666416102355444464034512659", "2");
+wide_field!(CW4fr, W4fr, 4, "52435875175126190479447740508185965837690552500527637822603658699938581184513", "5");
 wide_field!(CW4secp, W4secp, 4, "115792089237316195423570985008687907853269984665640564039457584007908834671663", "3");
 wide_field!(CW6fq, W6fq, 6, "4002409555221667393417789825735904156556882819939007885332058136124031650490837864442687629129015664037894272559787", "2");
 
@@ -214,3 +241,94 @@ toy_mnt4!(mnt4a, "241", "7", "257", "3", "7", "2", "4", "14", "28", "137", "99",
           1, "1", 225, "8", [1, 0, 0, 0, 0], true, 1, true, 15, "177", "240", "64");
 toy_mnt4!(mnt4b, "1277", "2", "313", "5", "2", "1", "5", "2", "10", "867", "1231", "330", "1163", "172", "640",
           4, "235", 5204, "107", [1, 0, -1, 0, 0, 1], false, 4, false, 102, "113", "1276", "1164");
+
+// ---- toy pairing-friendly curves of embedding degree 6 (instantiating the MNT6 model over Fp3 / Fp6_2over3)
+//   A: y^2 = x^3 + 2x + 4 over F_571,  #E = 2 * 271, trace 30: ate loop count 29 = NAF(1,0,0,-1,0,1), last chunk 2p + 59
+//   B: y^2 = x^3 + 3x + 6 over F_829,  #E = 2 * 397, trace 36: ate loop count 35 = NAF(1,0,0,1,0,-1), last chunk 2p + 71
+use ark_ec::models::mnt6::{MNT6Config, MNT6};
+macro_rules! toy_mnt6 {
+    ($m:ident, $p:literal, $pg:literal, $r:literal, $rg:literal, $beta:literal, $a:literal, $b:literal, $bbeta:literal,
+     $gx:literal, $gy:literal, [$qx0:literal, $qx1:literal, $qx2:literal], [$qy0:literal, $qy1:literal, $qy2:literal],
+     $h1:expr, $h1inv:literal, $h2:expr, $h2inv:literal, $naf:expr, $neg:expr, $w1:literal, $w0neg:expr, $w0:literal,
+     $s:literal, $tm1d2:literal, $qnrt:literal, [$c11:literal, $c12:literal], [$f1:literal, $f2:literal, $f3:literal, $f4:literal, $f5:literal]) => {
+        pub mod $m {
+            use super::*;
+            #[derive(MontConfig)]
+            #[modulus = $p]
+            #[generator = $pg]
+            pub struct FqC;
+            pub type Fq = Fp64<MontBackend<FqC, 1>>;
+            #[derive(MontConfig)]
+            #[modulus = $r]
+            #[generator = $rg]
+            pub struct FrC;
+            pub type Fr = Fp64<MontBackend<FrC, 1>>;
+            pub struct Fq3C;
+            impl Fp3Config for Fq3C {
+                type Fp = Fq;
+                const NONRESIDUE: Fq = MontFp!($beta);
+                const TWO_ADICITY: u32 = $s;
+                const TRACE_MINUS_ONE_DIV_TWO: &'static [u64] = &[$tm1d2];
+                const QUADRATIC_NONRESIDUE_TO_T: Fp3<Fq3C> = Fp3::new(MontFp!($qnrt), MontFp!("0"), MontFp!("0"));
+                const FROBENIUS_COEFF_FP3_C1: &'static [Fq] = &[MontFp!("1"), MontFp!($c11), MontFp!($c12)];
+                const FROBENIUS_COEFF_FP3_C2: &'static [Fq] = &[MontFp!("1"), MontFp!($c12), MontFp!($c11)];
+            }
+            pub type Fq3 = Fp3<Fq3C>;
+            pub struct Fq6C;
+            impl ark_ff::fields::fp6_2over3::Fp6Config for Fq6C {
+                type Fp3Config = Fq3C;
+                const NONRESIDUE: Fq3 = Fq3::new(MontFp!("0"), MontFp!("1"), MontFp!("0"));
+                const FROBENIUS_COEFF_FP6_C1: &'static [Fq] = &[MontFp!("1"), MontFp!($f1), MontFp!($f2), MontFp!($f3), MontFp!($f4), MontFp!($f5)];
+            }
+            pub type Fq6 = ark_ff::fields::fp6_2over3::Fp6<Fq6C>;
+            #[derive(Clone, Copy, PartialEq, Eq, Debug)]
+            pub struct G1C;
+            impl CurveConfig for G1C {
+                type BaseField = Fq;
+                type ScalarField = Fr;
+                const COFACTOR: &'static [u64] = &[$h1];
+                const COFACTOR_INV: Fr = MontFp!($h1inv);
+            }
+            impl SWCurveConfig for G1C {
+                const COEFF_A: Fq = MontFp!($a);
+                const COEFF_B: Fq = MontFp!($b);
+                const GENERATOR: sw::Affine<Self> = sw::Affine::new_unchecked(MontFp!($gx), MontFp!($gy));
+            }
+            #[derive(Clone, Copy, PartialEq, Eq, Debug)]
+            pub struct G2C;
+            impl CurveConfig for G2C {
+                type BaseField = Fq3;
+                type ScalarField = Fr;
+                const COFACTOR: &'static [u64] = &[$h2];
+                const COFACTOR_INV: Fr = MontFp!($h2inv);
+            }
+            impl SWCurveConfig for G2C {
+                const COEFF_A: Fq3 = Fq3::new(MontFp!("0"), MontFp!("0"), MontFp!($a));
+                const COEFF_B: Fq3 = Fq3::new(MontFp!($bbeta), MontFp!("0"), MontFp!("0"));
+                const GENERATOR: sw::Affine<Self> = sw::Affine::new_unchecked(
+                    Fq3::new(MontFp!($qx0), MontFp!($qx1), MontFp!($qx2)), Fq3::new(MontFp!($qy0), MontFp!($qy1), MontFp!($qy2)));
+            }
+            pub struct Cfg;
+            impl MNT6Config for Cfg {
+                const TWIST: Fq3 = Fq3::new(MontFp!("0"), MontFp!("1"), MontFp!("0"));
+                const TWIST_COEFF_A: Fq3 = Fq3::new(MontFp!("0"), MontFp!("0"), MontFp!($a));
+                const ATE_LOOP_COUNT: &'static [i8] = &$naf;
+                const ATE_IS_LOOP_COUNT_NEG: bool = $neg;
+                const FINAL_EXPONENT_LAST_CHUNK_1: ark_ff::BigInt<1> = ark_ff::BigInt([$w1]);
+                const FINAL_EXPONENT_LAST_CHUNK_W0_IS_NEG: bool = $w0neg;
+                const FINAL_EXPONENT_LAST_CHUNK_ABS_OF_W0: ark_ff::BigInt<1> = ark_ff::BigInt([$w0]);
+                type Fp = Fq;
+                type Fr = Fr;
+                type Fp3Config = Fq3C;
+                type Fp6Config = Fq6C;
+                type G1Config = G1C;
+                type G2Config = G2C;
+            }
+            pub type Pairing = MNT6<Cfg>;
+        }
+    };
+}
+toy_mnt6!(mnt6a, "571", "2", "271", "3", "2", "2", "4", "8", "471", "14", ["521", "530", "207"], ["171", "346", "52"],
+          2, "136", 686882, "221", [1, 0, 0, -1, 0, 1], false, 2, false, 59, 1, 46542352, "570", ["461", "109"], ["462", "461", "570", "109", "110"]);
+toy_mnt6!(mnt6b, "829", "2", "397", "2", "2", "3", "6", "12", "195", "129", ["720", "26", "268"], ["567", "628", "559"],
+          2, "199", 1434962, "325", [1, 0, 0, 1, 0, -1], false, 2, false, 71, 2, 71215348, "246", ["125", "703"], ["126", "125", "828", "703", "704"]);
